@@ -187,3 +187,135 @@ Proof. reflexivity. Qed.
 
 Lemma pow_split (n m : nat) : (m <= n)%nat -> B ^ Z.of_nat n = B ^ Z.of_nat m * B ^ Z.of_nat (n - m).
 Proof. intros H. rewrite <- Z.pow_add_r by lia. f_equal. lia. Qed.
+
+(** ** the estimate is good in all four variants *)
+Lemma lu2 w1 w2 : isword w1 -> isword w2 -> lu (lu (w1 * B) + w2) = w1 * B + w2.
+Proof.
+  unfold isword. intros H1 H2. pose proof B_pos.
+  rewrite (lu_small (w1 * B)) by (rewrite B2_eq; nia). apply lu_small. rewrite B2_eq. nia.
+Qed.
+
+Lemma lu2h x h : 0 <= x < HALF * B -> 0 <= h < HALF -> lu (lu (x * HALF) + h) = x * HALF + h.
+Proof.
+  intros Hx Hh. assert (HH : 0 < HALF) by reflexivity. pose proof B_pos.
+  assert (B2 = HALF * B * HALF) by reflexivity.
+  rewrite (lu_small (x * HALF)) by nia. apply lu_small. nia.
+Qed.
+
+Lemma div_half_bound w : isword w -> 0 <= w / HALF < HALF.
+Proof.
+  unfold isword. intros Hw. assert (HH : 0 < HALF) by reflexivity.
+  split; [apply Z.div_pos; lia|apply Z.div_lt_upper_bound; [lia|rewrite HALF_sq; lia]].
+Qed.
+
+Lemma qr_guess_good a1 b1 d off :
+  words a1 -> words b1 -> (2 <= hi b1)%nat -> val b1 <= val a1 ->
+  qr_guess a1 b1 (hi a1) (hi b1) = (d, off) ->
+  (1 <= off <= hi a1 - 1)%nat /\ 1 <= d < B * B
+  /\ 0 < val b1 * (d * B ^ Z.of_nat (off - 1)) < 2 * val a1.
+Proof.
+  intros Ha Hb Hbl Hle H.
+  pose proof (hi_le_of_val a1 b1 Ha Hb Hle) as Hlen.
+  set (alen := hi a1) in *. set (blen := hi b1) in *.
+  pose proof (isword_wd a1 (alen - 1) Ha) as W1. pose proof (isword_wd a1 (alen - 2) Ha) as W2.
+  pose proof (isword_wd a1 (alen - 3) Ha) as W3.
+  pose proof (isword_wd b1 (blen - 1) Hb) as V1. pose proof (isword_wd b1 (blen - 2) Hb) as V2.
+  pose proof (isword_wd b1 (blen - 3) Hb) as V3.
+  pose proof (top_word_pos a1 Ha ltac:(fold alen; lia)) as W1p. fold alen in W1p.
+  pose proof (top_word_pos b1 Hb Hbl) as V1p. fold blen in V1p.
+  pose proof (div_half_bound _ W3) as W3h. pose proof (div_half_bound _ V3) as V3h. pose proof (div_half_bound _ V2) as V2h.
+  assert (HH : 0 < HALF) by reflexivity. pose proof B_pos as HB. pose proof HALF_sq as HS.
+  destruct (top2 a1 alen Ha eq_refl ltac:(lia)) as (la & Ea & Hla).
+  destruct (top2 b1 blen Hb eq_refl Hbl) as (lb & Eb & Hlb).
+  unfold qr_guess in H. rewrite !lu2 in H by assumption.
+  set (w1 := wd a1 (alen - 1)) in *. set (w2 := wd a1 (alen - 2)) in *. set (w3 := wd a1 (alen - 3)) in *.
+  set (v1 := wd b1 (blen - 1)) in *. set (v2 := wd b1 (blen - 2)) in *. set (v3 := wd b1 (blen - 3)) in *.
+  unfold isword in *.
+  assert (Pa : 0 < B ^ Z.of_nat (alen - 2)) by (apply Z.pow_pos_nonneg; [reflexivity|lia]).
+  assert (Pb : 0 < B ^ Z.of_nat (blen - 2)) by (apply Z.pow_pos_nonneg; [reflexivity|lia]).
+  assert (PX : 0 < B ^ Z.of_nat (alen - blen)) by (apply Z.pow_pos_nonneg; [reflexivity|lia]).
+  (* first estimate: (dn1, dd1, Sa1, Sb1) *)
+  assert (E1 : exists dn dd Sa Sb ra rb,
+    (let '(dn0, dd0) :=
+       if (2 <? alen)%nat && (2 <? blen)%nat && (w1 <? HALF) && (v1 <? HALF)
+       then (lu (lu ((w1 * B + w2) * HALF) + w3 / HALF), lu (lu ((v1 * B + v2) * HALF) + v3 / HALF))
+       else (w1 * B + w2, v1 * B + v2) in (dn0, dd0)) = (dn, dd)
+    /\ val a1 = dn * Sa + ra /\ 0 <= ra < Sa /\ val b1 = dd * Sb + rb /\ 0 <= rb < Sb
+    /\ 1 <= dd /\ 0 <= dn < B * B /\ Sa = Sb * B ^ Z.of_nat (alen - blen) /\ 0 < Sb).
+  { destruct ((2 <? alen)%nat && (2 <? blen)%nat && (w1 <? HALF) && (v1 <? HALF)) eqn:R1.
+    - apply andb_prop in R1. destruct R1 as [R1 Rv]. apply andb_prop in R1. destruct R1 as [R1 Rw].
+      apply andb_prop in R1. destruct R1 as [Ra Rb]. apply Nat.ltb_lt in Ra, Rb. apply Z.ltb_lt in Rw, Rv.
+      destruct (top3 a1 alen Ha eq_refl ltac:(lia)) as (la3 & Ea3 & Hla3).
+      destruct (top3 b1 blen Hb eq_refl ltac:(lia)) as (lb3 & Eb3 & Hlb3).
+      fold w1 w2 w3 in Ea3. fold v1 v2 v3 in Eb3.
+      rewrite !lu2h by nia.
+      exists ((w1 * B + w2) * HALF + w3 / HALF), ((v1 * B + v2) * HALF + v3 / HALF),
+             (B ^ Z.of_nat (alen - 3) * HALF), (B ^ Z.of_nat (blen - 3) * HALF), la3, lb3.
+      assert (0 < B ^ Z.of_nat (blen - 3)) by (apply Z.pow_pos_nonneg; [reflexivity|lia]).
+      split; [reflexivity|]. split; [rewrite Ea3; ring|]. split; [exact Hla3|].
+      split; [rewrite Eb3; ring|]. split; [exact Hlb3|]. split; [nia|]. split; [nia|].
+      split; [|nia]. rewrite (pow_split (alen - 3) (blen - 3)) by lia.
+      replace (alen - 3 - (blen - 3))%nat with (alen - blen)%nat by lia. ring.
+    - exists (w1 * B + w2), (v1 * B + v2), (B ^ Z.of_nat (alen - 2)), (B ^ Z.of_nat (blen - 2)), la, lb.
+      split; [reflexivity|]. split; [rewrite Ea; ring|]. split; [exact Hla|].
+      split; [rewrite Eb; ring|]. split; [exact Hlb|]. split; [nia|]. split; [nia|].
+      split; [|exact Pb]. rewrite (pow_split (alen - 2) (blen - 2)) by lia.
+      replace (alen - 2 - (blen - 2))%nat with (alen - blen)%nat by lia. reflexivity. }
+  destruct E1 as (dn & dd & Sa & Sb & ra & rb & Eq & EA & Hra & EB & Hrb & Hdd & Hdn & HSab & HSb).
+  destruct (if (2 <? alen)%nat && (2 <? blen)%nat && (w1 <? HALF) && (v1 <? HALF)
+            then (lu (lu ((w1 * B + w2) * HALF) + w3 / HALF), lu (lu ((v1 * B + v2) * HALF) + v3 / HALF))
+            else (w1 * B + w2, v1 * B + v2)) as [dn0 dd0] eqn:Eif.
+  apply pair_equal_spec in Eq. destruct Eq as [-> ->].
+  destruct (Z.eqb_spec (dn / dd) 0) as [Hd0|Hd0].
+  2:{ (* first estimate accepted *)
+    apply pair_equal_spec in H. destruct H as [<- <-].
+    assert (Hd1 : 1 <= dn / dd) by (pose proof (Z.div_pos dn dd ltac:(lia) ltac:(lia)); lia).
+    split; [lia|]. split.
+    - split; [exact Hd1|]. pose proof (Z.div_le_upper_bound dn dd dn ltac:(lia) ltac:(nia)). lia.
+    - replace (alen - blen + 1 - 1)%nat with (alen - blen)%nat by lia.
+      apply (estimate_good (val a1) (val b1) dn dd ra rb Sa Sb); try assumption. }
+  (* retry one position lower *)
+  assert (Hlt : dn < dd) by (apply Z.div_small_iff in Hd0; lia).
+  assert (Hgt : (blen < alen)%nat).
+  { destruct (Nat.eq_dec alen blen) as [E|]; [|lia]. exfalso.
+    rewrite E, Nat.sub_diag in HSab. cbn [Z.of_nat] in HSab. rewrite Z.pow_0_r, Z.mul_1_r in HSab. subst Sa. nia. }
+  assert (E2 : exists dn2 dd2 Sa2 Sb2 ra2 rb2,
+    (let '(dn0, dd0) :=
+       if (w1 <? HALF) && (v1 <? HALF)
+       then (lu (lu ((w1 * B + w2) * HALF) + w3 / HALF), lu (lu (v1 * HALF) + v2 / HALF))
+       else (w1 * B + w2, v1) in (dn0, dd0)) = (dn2, dd2)
+    /\ val a1 = dn2 * Sa2 + ra2 /\ 0 <= ra2 < Sa2 /\ val b1 = dd2 * Sb2 + rb2 /\ 0 <= rb2 < Sb2
+    /\ 1 <= dd2 /\ dd2 <= dn2 < B * B /\ Sa2 = Sb2 * B ^ Z.of_nat (alen - blen - 1) /\ 0 < Sb2).
+  { destruct ((w1 <? HALF) && (v1 <? HALF)) eqn:R2.
+    - apply andb_prop in R2. destruct R2 as [Rw Rv]. apply Z.ltb_lt in Rw, Rv.
+      destruct (top3 a1 alen Ha eq_refl ltac:(lia)) as (la3 & Ea3 & Hla3). fold w1 w2 w3 in Ea3.
+      destruct (top2h b1 blen Hb eq_refl Hbl) as (lbh & Ebh & Hlbh). fold v1 v2 in Ebh.
+      rewrite lu2h by nia.
+      rewrite (lu_small (v1 * HALF)) by (rewrite B2_eq; nia).
+      rewrite (lu_small (v1 * HALF + v2 / HALF)) by (rewrite B2_eq; nia).
+      exists ((w1 * B + w2) * HALF + w3 / HALF), (v1 * HALF + v2 / HALF),
+             (B ^ Z.of_nat (alen - 3) * HALF), (B ^ Z.of_nat (blen - 2) * HALF), la3, lbh.
+      split; [reflexivity|]. split; [rewrite Ea3; ring|]. split; [exact Hla3|].
+      split; [rewrite Ebh; ring|]. split; [exact Hlbh|]. split; [nia|]. split; [nia|].
+      split; [|nia]. rewrite (pow_split (alen - 3) (blen - 2)) by lia.
+      replace (alen - 3 - (blen - 2))%nat with (alen - blen - 1)%nat by lia. ring.
+    - destruct (top1 b1 blen Hb eq_refl Hbl) as (lb1 & Eb1 & Hlb1). fold v1 in Eb1.
+      exists (w1 * B + w2), v1, (B ^ Z.of_nat (alen - 2)), (B ^ Z.of_nat (blen - 1)), la, lb1.
+      split; [reflexivity|]. split; [rewrite Ea; ring|]. split; [exact Hla|].
+      split; [rewrite Eb1; ring|]. split; [exact Hlb1|]. split; [lia|]. split; [nia|].
+      split; [|apply Z.pow_pos_nonneg; [reflexivity|lia]].
+      rewrite (pow_split (alen - 2) (blen - 1)) by lia.
+      replace (alen - 2 - (blen - 1))%nat with (alen - blen - 1)%nat by lia. reflexivity. }
+  destruct E2 as (dn2 & dd2 & Sa2 & Sb2 & ra2 & rb2 & Eq2 & EA2 & Hra2 & EB2 & Hrb2 & Hdd2 & Hdn2 & HSab2 & HSb2).
+  destruct (if (w1 <? HALF) && (v1 <? HALF)
+            then (lu (lu ((w1 * B + w2) * HALF) + w3 / HALF), lu (lu (v1 * HALF) + v2 / HALF))
+            else (w1 * B + w2, v1)) as [dn0 dd0] eqn:Eif2.
+  apply pair_equal_spec in Eq2. destruct Eq2 as [-> ->].
+  apply pair_equal_spec in H. destruct H as [<- <-].
+  assert (Hd1 : 1 <= dn2 / dd2) by (apply Z.div_le_lower_bound; lia).
+  split; [lia|]. split.
+  - split; [exact Hd1|]. pose proof (Z.div_le_upper_bound dn2 dd2 dn2 ltac:(lia) ltac:(nia)). lia.
+  - replace (alen - blen + 1 - 1 - 1)%nat with (alen - blen - 1)%nat by lia.
+    apply (estimate_good (val a1) (val b1) dn2 dd2 ra2 rb2 Sa2 Sb2); try assumption.
+    apply Z.pow_pos_nonneg; [reflexivity|lia].
+Qed.
